@@ -269,7 +269,7 @@ static void classify_and_model(const desc_t *d, const scn_t *s) {
             if (dl == dmax_el) { X.viol = V_DUNT; return; }
         }
         if (has_slen) k = s->slen < L ? s->slen : L; else k = L;
-        if (!has_slen && L == sobj_el) { X.viol = V_UNSURE; return; }      /* not generated (untruthful) */
+        if (!has_slen && L == sobj_el) { X.viol = (s->bos && (d->fl & F_SRCBOS)) ? V_SUNT : V_UNSURE; return; }   /* documented ESUNTERM with a known source size */
         if (has_slen && L == sobj_el && s->slen > sobj_el) { X.viol = V_UNSURE; return; }
         if (d->fam == FAM_NCAT && s->slen == 0) {
             /* documented special case: EOK, "clear the rest of dest" */
@@ -726,7 +726,9 @@ static void base_scn(const desc_t *d, scn_t *s, int fi) {
 static void size_src(const desc_t *d, scn_t *s) {
     int ew = d->ew;
     switch (d->fam) {
-    case FAM_CPY: case FAM_CAT: s->sterm = 1; s->sobj = (s->sstr + 1) * ew; break;
+    case FAM_CPY: case FAM_CAT:
+        if (!s->sterm && d->fam == FAM_CPY && (d->fl & F_SRCBOS) && s->bos && s->sstr) { s->sobj = s->sstr * ew; break; }   /* unterminated, size known to the library */
+        s->sterm = 1; s->sobj = (s->sstr + 1) * ew; break;
     case FAM_NCPY: case FAM_NCAT: case FAM_FLDIN:
         if (s->sterm) s->sobj = (s->sstr + 1) * ew;
         else { /* unterminated: object has exactly max(slen, 1) elements, all non-zero */
@@ -780,7 +782,8 @@ static void gen_main(int fi, visit_fn visit) {
             if ((d->fam == FAM_MEMCPY || d->fam == FAM_MEMMOVE || d->fam == FAM_FLD || d->fam == FAM_FLDOUT) && b > 0) break;   /* source length = slen */
             for (int c = 0; c < nl; c++) {
                 for (int term = 1; term >= 0; term--) {
-                    if (!term && !(has_src && has_slen && (d->fl & F_STRSRC))) continue;
+                    int cpy_srcbos = (d->fam == FAM_CPY && (d->fl & F_SRCBOS));   /* stpcpy_s: "ESUNTERM when src is unterminated" needs a known source size */
+                    if (!term && !(has_src && (d->fl & F_STRSRC) && (has_slen || cpy_srcbos))) continue;
                     for (int order = 0; order < 2; order++) {
                         if (!has_src && order) continue;
                         for (int bos = 0; bos < 3; bos++) {
@@ -800,6 +803,7 @@ static void gen_main(int fi, visit_fn visit) {
                                     s.dplace = pl == 1; s.splace = pl == 2;
                                     if (s.dplace && bos == 2) continue;
                                     s.sstr = has_src ? srel[b] : 0; s.sterm = term;
+                                    if (!term && cpy_srcbos && (bos == 0 || s.sstr == 0)) continue;   /* untruthful without a known size */
                                     s.slen = has_slen ? lrel[c] * ew / (d->sunit ? d->sunit : 1) : 0;
                                     if (d->fam == FAM_MEMCCPY) { s.n = srel[b]; s.sterm = term; s.val = 0x41 + (int)((a + b + c) % 3) * 0x40 - ((a + b) % 2 ? 0x41 : 0); if (s.val == 0x41 - 0x41) s.val = 0; }
                                     if (d->fam == FAM_SETN || d->fam == FAM_SET) { static const long vv[] = {'x', 0xff, 0x100 + 'y', 0, 0x5a5a5a}; s.val = vv[(a + b + c + dk) % 5]; }
@@ -960,8 +964,28 @@ static void run_overlap_case(const desc_t *d, const ovl_t *o, long idx) {
         if (!g_fence.is_write && want("C02")) { snprintf(key, sizeof key, "%s|ovl-R-fault|%s", d->name, zone); snprintf(what, sizeof what, "%s reads outside the declared extents (overlapping placement): %s", d->name, obs); witness_ovl(d, o, idx, obs); report("C02", key, what, g_wit); }
         return;
     }
-    if (!want("C07")) return;
     int success = C.ret == 0;
+    /* the same observations serve C04 (failed call leaves no partial result) and C08 (slack after success) for placements
+       that only exist inside one object: dest above/below src, identical pointers */
+    if (!success && (d->fl & F_C04) && want("C04")) {
+        const uint8_t *bD = snap_of(D); const char *r4 = NULL; size_t at = 0;
+        if (getel(D, 0, ew)) r4 = "dest[0]-not-zero";
+        else for (size_t i = 0; i < dm; i++) { uint32_t a = getel(D, i, ew), b = getel(bD, i, ew); if (a != b && a != 0) { r4 = "partial-result-visible"; at = i; break; } }
+        if (!r4 && !g_noslack && (C.ret == ESOVRLP || C.ret == ESNOSPC) && is_str) for (size_t i = 0; i < dm; i++) if (getel(D, i, ew)) { r4 = "not-all-zero-after-late-failure"; at = i; break; }
+        if (r4 && !(g_noslack && !strcmp(r4, "partial-result-visible"))) {
+            snprintf(key, sizeof key, "%s|ovl|%s|ret=%s|%s|%s", d->name, r4, errname(C.ret), o->delta < 0 ? "src-below" : o->delta == 0 ? "same" : "src-above", g_cfg);
+            snprintf(obs, sizeof obs, "ret=%s dest[%zu]=%#x dmax=%zu delta=%ld", errname(C.ret), at, getel(D, at, ew), dm, o->delta);
+            snprintf(what, sizeof what, "%s fails but %s (overlapping placement): %s", d->name, r4, obs); witness_ovl(d, o, idx, obs); report("C04", key, what, g_wit);
+        }
+    }
+    if (success && (d->fl & F_SLACK) && is_str && fits && !g_noslack && want("C08")) {
+        size_t len = dl + k; if (o->delta == 0 && (d->fl & F_SAMEOK)) len = elnlen(iD, dm, ew);
+        if (len < dm && memcmp(D, wD, 0) == 0) for (size_t i = len; i < dm; i++) if (getel(D, i, ew)) {
+            snprintf(key, sizeof key, "%s|ovl|stale-data-behind-terminator|%s|%s", d->name, o->delta < 0 ? "src-below" : o->delta == 0 ? "same" : "src-above", szcls(dm));
+            snprintf(obs, sizeof obs, "result length %zu, dmax %zu, dest[%zu]=%#x, delta=%ld", len, dm, i, getel(D, i, ew), o->delta);
+            snprintf(what, sizeof what, "%s succeeds but stale data remains behind the terminator (operands inside one object): %s", d->name, obs); witness_ovl(d, o, idx, obs); report("C08", key, what, g_wit); break; }
+    }
+    if (!want("C07")) return;
     int exact = success && memcmp(D, wD, cmp_b) == 0;
     /* "report the overlap error with dest cleared": all dmax elements for ESOVRLP in the default build (C04's late-failure
        clause), first element zero otherwise */
